@@ -13,8 +13,9 @@ Print Assumptions C14_tables_ok.
 (* THE FULL STATEMENT (DESIGN.md appendix C): for every AST of the documented subset both readers succeed and return the same
    circuit apart from the names of the constant nodes (untie_eq_registry: that equality includes name and registry).
    NOT PROVED for all ASTs: it is decided per generated AST / rendered text by Run_C14.agree + Run_C14.holds (see
-   C14_case_decides_instance_partial); proved for all inputs are the three ingredients below that the repairs of the fast reader
-   rest on (fresh tie names, parity cancellation). *)
+   C14_case_decides_instance_partial); proved for all inputs are: success of the fast reader on the whole subset, equality of name and registry whenever both
+   succeed, the ingredients the repairs rest on (fresh tie names, parity cancellation), and that equality up to the constant
+   names implies the functional clause. *)
 Definition C14_fast_full_agree_ast_full : Prop := ∀ a bbs, in_subset a bbs = true → agreement a bbs.
 
 (* per-instance decision: the boolean evaluated by the oracle is the statement's instance *)
@@ -25,6 +26,12 @@ Print Assumptions C14_case_decides_instance_partial.
 Theorem C14_untie_eq_registry : ∀ Cf Cl, untie Cf = untie Cl → c_name Cf = c_name Cl ∧ c_bbs Cf = c_bbs Cl.
 Proof. exact untie_eq_registry. Qed.
 Print Assumptions C14_untie_eq_registry.
+
+(* first half of "both succeed", for EVERY AST of the documented subset: the fast reader raises nothing (no ValueError for an
+   unknown blackbox or pin, no KeyError at the output marking).  The other half (full reader) and the equality are decided per case. *)
+Theorem C14_fast_sem_succeeds_partial : ∀ a bbs, in_subset a bbs = true → ∃ C, fast_sem a bbs = Ok C.
+Proof. exact fast_sem_succeeds. Qed.
+Print Assumptions C14_fast_sem_succeeds_partial.
 
 (* one clause of the full statement, proved for ALL ASTs (inside or outside the subset): whenever both readers succeed they
    return the same module name and the same blackbox instances (definitions unambiguous) *)
